@@ -37,7 +37,11 @@ func (stack *Stack) GetExpressions(n int) ([]Sexp, error) {
 	}
 	arr := make([]Sexp, n)
 	for i := 0; i < n; i++ {
-		arr[i] = stack.elements[stack_start+i].(DataStackElem).expr
+		elem, ok := stack.elements[stack_start+i].(DataStackElem)
+		if !ok {
+			return nil, errors.New("not enough items on stack")
+		}
+		arr[i] = elem.expr
 	}
 	return arr, nil
 }
